@@ -15,7 +15,12 @@ pub fn monitors_for(prop: &str) -> Vec<Box<dyn Monitor>> {
         "C03" => vec![Box::new(mon::basic::C03::default())],
         "C08" => vec![Box::new(mon::basic::C08::default())],
         "C10" => vec![Box::new(mon::basic::C10::default())],
-        "C04" => vec![Box::new(mon::econ::C04::default())],
+        // the margin a close pays out is only "the position's margin" if every earlier owner operation
+        // booked it correctly: the per-operation margin/funding ledger of C11 runs as an auxiliary oracle
+        "C04" => vec![
+            Box::new(mon::econ::C04::default()),
+            Box::new(Relabel { inner: Box::new(mon::econ2::C11::default()), to: "C04", prefix: "ledger:" }),
+        ],
         "C05" => vec![Box::new(mon::econ::C05::default())],
         "C06" => vec![Box::new(mon::econ::C06::default())],
         "C07" => vec![Box::new(mon::econ2::C07::default())],
